@@ -30,7 +30,7 @@ def digests(pid, n, tier="quick", master=0):
         return prop.selftest_digests(n, tier, master)
     for i in range(n):
         s = R.run_seed(master, pid, i)
-        rec = runner.run_scenario(prop, prop.generate(s, tier))
+        rec = runner.run_scenario(prop, runner.gen(prop, s, tier))
         out[str(s)] = rec["digest"] + ":" + str(sorted((v["oracle"], v["site"]) for v in rec["violations"]))
     return out
 
